@@ -66,12 +66,42 @@ struct recover_ghost {
   unsigned mkdirs, exists_calls, vrecover_calls, children_calls, addfiles_calls, set_inits, set_clears, arr_inits, arr_clears, sorts, free_children;
   int vrecover_rc; int lock_rc;
   uint64_t seq_manifest;          /* last_sequence after ldb_versions_recover                          */
-  unsigned nreplayed, nmarked; uint64_t replayed[LIFE_MAXDIR]; uint64_t marked[LIFE_MAXDIR]; int lastflag[LIFE_MAXDIR];
-  int replay_rc[LIFE_MAXDIR];
-  uint64_t maxseq;                /* running maximum reported by the log replays                       */
-  int saved_by_replay;            /* a replay produced a table / could not reuse its log: edit must be saved */
+  unsigned nmarked; uint64_t marked[LIFE_MAXDIR];
   unsigned parse_calls;
 } RG;
+
+/* trace of the log replays (written by the ghost contract of ldb_recover_log_file) */
+struct replay_ghost {
+  unsigned n; uint64_t replayed[LIFE_MAXDIR]; int lastflag[LIFE_MAXDIR]; int rc[LIFE_MAXDIR];
+  uint64_t maxseq;                /* running maximum reported by the log replays                       */
+  int saved_by_replay;            /* a replay produced a table / could not reuse its log: edit must be saved */
+} TG;
+/* what a replay that reuses its log hands back */
+ldb_wfile_t *g_rlogfile; ldb_writer_t *g_rlog; ldb_memtable_t *g_rmem;
+
+/* ghost contract of ldb_recover_log_file as ldb_recover sees it (functional spec: db.recoverlog):
+   records (number, last_log flag, status); arbitrary status; max_sequence only grows; may demand a MANIFEST save
+   (a level-0 table was written - its edit is pending, so nothing may be garbage-collected before it is applied);
+   the last log may be handed back for reuse together with its memtable */
+int c_recover_log_file(ldb_t *db, uint64_t log_number, int last_log, int *save_manifest, ldb_edit_t *edit, ldb_seqnum_t *max_sequence)
+__CPROVER_requires(db == g_db && g_held && KG.locked)
+/* obligations on the caller */
+__CPROVER_requires(TG.n < LIFE_MAXDIR)
+__CPROVER_requires(RG.nmarked == TG.n)
+__CPROVER_requires(*max_sequence == TG.maxseq)
+__CPROVER_requires(RG.set_clears == 0 && RG.sorts == 1)
+__CPROVER_requires(*save_manifest == 0 || *save_manifest == 1)
+__CPROVER_assigns(TG.n, TG.replayed[TG.n], TG.lastflag[TG.n], TG.rc[TG.n], TG.maxseq, TG.saved_by_replay, *save_manifest, *max_sequence, g_gc_allowed,
+                  db->logfile, db->log, db->mem, db->logfile_number)
+__CPROVER_ensures(TG.n == __CPROVER_old(TG.n) + 1 && TG.replayed[__CPROVER_old(TG.n)] == log_number && TG.lastflag[__CPROVER_old(TG.n)] == last_log &&
+                  TG.rc[__CPROVER_old(TG.n)] == __CPROVER_return_value)
+__CPROVER_ensures(*max_sequence >= __CPROVER_old(*max_sequence) && TG.maxseq == *max_sequence)
+__CPROVER_ensures(__CPROVER_return_value != LDB_OK ==> *max_sequence == __CPROVER_old(*max_sequence))
+__CPROVER_ensures((*save_manifest == __CPROVER_old(*save_manifest) && g_gc_allowed == __CPROVER_old(g_gc_allowed) && TG.saved_by_replay == __CPROVER_old(TG.saved_by_replay)) ||
+                  (*save_manifest == 1 && g_gc_allowed == 0 && TG.saved_by_replay == 1))
+__CPROVER_ensures((db->logfile == __CPROVER_old(db->logfile) && db->log == __CPROVER_old(db->log) && db->mem == __CPROVER_old(db->mem) && db->logfile_number == __CPROVER_old(db->logfile_number)) ||
+                  (__CPROVER_return_value == LDB_OK && last_log && db->logfile == g_rlogfile && db->log == g_rlog && db->mem == g_rmem && db->logfile_number == log_number))
+;
 
 ldb_filelock_t *g_lock_obj_p;     /* the lock object handed out by the ldb_lock_file model */
 
@@ -80,7 +110,7 @@ int c_recover(ldb_t *db, ldb_edit_t *edit, int *save_manifest)
 __CPROVER_requires(db == g_db && g_held && db->db_lock == NULL && !KG.locked && KG.lock_calls == 0 && KG.unlock_calls == 0)
 __CPROVER_requires(__CPROVER_rw_ok(save_manifest, sizeof(*save_manifest)) && *save_manifest == 0 && db->mem == NULL && db->log == NULL && db->logfile == NULL)
 __CPROVER_requires(NG.calls == 0 && NG.cur_installed == 0)
-__CPROVER_assigns(RG, NG, KG, g_gc_allowed, *save_manifest, db->db_lock, db->mem, db->log, db->logfile, db->logfile_number,
+__CPROVER_assigns(RG, TG, NG, KG, g_gc_allowed, *save_manifest, db->db_lock, db->mem, db->log, db->logfile, db->logfile_number,
                   db->versions->log_number, db->versions->prev_log_number, db->versions->last_sequence, db->versions->next_file_number)
 __CPROVER_ensures(g_held)
 /* the handle owns the LOCK exactly when db_lock is set (so that a failed open can release it) */
@@ -92,5 +122,8 @@ __CPROVER_ensures(*save_manifest == 0 || *save_manifest == 1)
 /* a memtable is handed back only together with the reused log it belongs to */
 __CPROVER_ensures(db->mem != NULL ==> (db->log != NULL && db->logfile != NULL))
 __CPROVER_ensures((db->log != NULL) == (db->logfile != NULL))
+/* G4/P4: the file-number allocator ends above every log that was replayed */
+__CPROVER_ensures(__CPROVER_return_value == LDB_OK ==> ((TG.n < 1 || db->versions->next_file_number > TG.replayed[0]) && (TG.n < 2 || db->versions->next_file_number > TG.replayed[1]) &&
+   (TG.n < 3 || db->versions->next_file_number > TG.replayed[2]) && (TG.n < 4 || db->versions->next_file_number > TG.replayed[3])))
 ;
 #endif
